@@ -427,8 +427,10 @@ def wrapper(chk, awq_mi):
     chk.floor("C15.R8", n_paths, 2, "AWQPackedTensor.unpack paths")
     # -- reconstructions inside the class carry (packing, reorder) over
     n = 0
-    for m in ci.node.body:
-        if not isinstance(m, ast.FunctionDef) or m.name in ("pack", "__tensor_unflatten__"):
+    # methods of the class and module-level helpers they may delegate the rebuilding to
+    holders = [m for m in ci.node.body if isinstance(m, ast.FunctionDef)] + [m for m in awq_mi.tree.body if isinstance(m, ast.FunctionDef) and m.name not in fns]
+    for m in holders:
+        if m.name in ("pack", "__tensor_unflatten__"):
             continue
         for c in ast.walk(m):
             if isinstance(c, ast.Call) and isinstance(c.func, ast.Name) and c.func.id == "AWQPackedTensor":
